@@ -48,6 +48,7 @@ def run(repo: Repo, tier: str, res: CheckResult, seed: int = 0) -> None:
     one_shot_recipes(repo, res)
     recursion_by_whole_location(repo, res)
     routing_decisions_not_memoised(repo, res)
+    delegation_restarts_the_search_at_the_same_location(repo, res)
     res.assumptions = list(ASSUMPTIONS)
 
 
@@ -1000,3 +1001,30 @@ def routing_decisions_not_memoised(repo: Repo, res: CheckResult) -> None:
                                     f"`{norm(c)[:80]}`: the router modifies its own state while routing (see ROUTER.decision-remembered)",
                                     c.lineno))
     res.count("ROUTER.stateless-routers", n, 2)
+
+
+def delegation_restarts_the_search_at_the_same_location(repo: Repo, res: CheckResult) -> None:
+    """The unwrapping providers (NewType, Annotated, type aliases) answer by sending the request again with the wrapped type.
+    Chain.FIRST / LAST compose the user function with "the next matching provider's result exactly once": that holds only if the
+    re-sent request cannot reach the chaining provider a second time. The re-send is a COMPLETE search (delegating_provide ->
+    offset 0) and `replace_last_type` keeps everything of the location but the type, so a chaining provider bound by a predicate
+    that does not look at the type (a field name, `P[M].uid`) matches the re-sent request again and composes twice."""
+    m = repo.mod("provider/located_request")
+    ci = m.classes.get("LocatedRequestDelegatingProvider")
+    if ci is None:
+        raise AnalysisError("anchor vanished: LocatedRequestDelegatingProvider")
+    n = 0
+    for c in ast.walk(ci.node):
+        if isinstance(c, ast.Call) and isinstance(c.func, ast.Attribute) and c.func.attr in ("delegating_provide", "mandatory_provide", "provide") \
+                and norm(c.func.value) == "mediator" and c.args:
+            n += 1
+            res.evaluated(f"delegation:{norm(c)[:60]}", True)
+            arg = norm(c.args[0])
+            if "replace_last_type(" in arg and "loc_stack" in arg:
+                res.add(Finding("C09", "CHAIN.delegation-restarts-search-at-same-location", m.rel,
+                                "LocatedRequestDelegatingProvider.get_request_handlers.delegating_request_handler",
+                                "mediator.delegating_provide(replace(request, loc_stack=request.loc_stack.replace_last_type(tp)))",
+                                "the unwrapping providers re-send the request with the wrapped type through the whole recipe at the SAME "
+                                "location (field identity kept): a chaining provider selected by a predicate that ignores the type "
+                                "matches both the original and the re-sent request and its function is composed twice", c.lineno))
+    res.count("CHAIN.delegation-sites", n, 1)
